@@ -217,7 +217,8 @@ theorem indent_roundtrip {t : Tree} (hr : Representable env t = true) {str : Str
 /-- **The indented string for an element (comment, PI, text) start node** of a `nodeOK` tree: the rendering
     of `spellNodeP` of the subtree — white space runs inside its elements included — followed by one line
     feed for a markup node; it fails exactly where the plain serialisation fails.  (The reparse of such a
-    string is a document around the node: not covered by the round-trip theorems.) -/
+    string is a document around the node; for an ELEMENT start node: Lemmas/SerIndentInner.lean,
+    C14_indent_roundtrip_inner.) -/
 theorem serializePretty_at (t : Tree) (start : Path) (n : Tree) (inScope : List (Nat × Nat))
     (hat : t.at? start = some n) (hsc : namespacesInScope t start = some inScope)
     (henv : envOK env = true) (ht : t.allNodes (nodeOK env) = true) (hdoc : n.value.isDocument = false) :
